@@ -6,6 +6,7 @@ import (
 	"io"
 	"path/filepath"
 
+	"github.com/ipld/go-storethehash/internal/vfsck"
 	"github.com/ipld/go-storethehash/internal/vrt"
 	"github.com/ipld/go-storethehash/store/types"
 )
@@ -210,4 +211,22 @@ func apiStep(s *Store, c vcfg, keys [][]byte, m *model, op int, where string) {
 	case opIter:
 		checkIter(s, keys, m, where)
 	}
+}
+
+// fsck runs the independent format reader (C07) against the store's files and live
+// bucket table. Call it only at quiescent points after Flush or Close.
+func fsck(s *Store, dir string, where string) {
+	if vrt.Param("fsck", 1) == 0 {
+		return
+	}
+	tb := s.index.VerifBuckets()
+	live := make([]uint64, len(tb))
+	for i, p := range tb {
+		live[i] = uint64(p)
+	}
+	var pending []vfsck.Loc
+	for _, b := range s.freelist.VerifPool() {
+		pending = append(pending, vfsck.Loc{Offset: uint64(b.Offset), Size: uint32(b.Size)})
+	}
+	vfsck.Check(vfsck.Input{IndexBase: filepath.Join(dir, "i"), PrimaryBase: filepath.Join(dir, "d"), Buckets: live, Pending: pending, Where: where})
 }
